@@ -11,6 +11,11 @@ OUT_NAME = "T_C02.v"
 SRC = REPO / "src" / "pyopenapi_gen"
 
 
+PINNED = {"synthetic": ["Item", "Property"], "array_self_ref": ["Children", "ChildrenItem"], "endswith": ["Item"],
+          "separator": " -> ", "max_depth": 150, "item_suffix": ["Item"], "anonymous_base": ["AnonymousArray"],
+          "mark": ["Item"]}
+
+
 def _parse(rel: str) -> ast.Module:
     try:
         return ast.parse((SRC / rel).read_text())
@@ -101,8 +106,22 @@ def render() -> str:
                 and isinstance(n.value.values[0], ast.Name) and n.value.values[0].id == "schema_name" \
                 and isinstance(n.value.values[1], ast.Constant) and isinstance(n.value.values[1].value, str):
             anon.add(n.value.values[1].value)
+    marks = [n.left.value for n in ast.walk(ps)
+             if isinstance(n, ast.Compare) and len(n.ops) == 1 and isinstance(n.ops[0], ast.In)
+             and isinstance(n.left, ast.Constant) and isinstance(n.left.value, str)
+             and isinstance(n.comparators[0], ast.Subscript) and isinstance(n.comparators[0].value, ast.Attribute)
+             and n.comparators[0].value.attr == "cycle_path"]
+    if len(marks) != 1:
+        raise TranslatorError(f"_parse_schema: expected one `c in cycle_info.cycle_path[i]` test, got {marks}")
     if len(item_suffix) != 1 or len(anon) != 1:
         raise TranslatorError(f"item naming changed shape: suffixes {item_suffix}, anonymous bases {anon}")
+    got = {"synthetic": synth, "array_self_ref": arr, "endswith": ends, "separator": sep.func.value.value,
+           "max_depth": md, "item_suffix": sorted(item_suffix), "anonymous_base": sorted(anon), "mark": marks}
+    if got != PINNED:
+        # The open findings F02a/F02f are attributed through guards that are only meaningful for the storage policy
+        # they were established with; a changed policy must be looked at, not silently followed by the model.
+        diff = {k: (PINNED[k], got[k]) for k in PINNED if PINNED[k] != got[k]}
+        raise TranslatorError(f"storage-policy / depth constants changed (pinned, now): {diff}")
     lines = [
         "(* GENERATED by harness/tables_C02.py from the working tree of pyopenapi_gen - do not edit *)",
         "From Coq Require Import List NArith.", "Import ListNotations.", "Open Scope N_scope.", "",
@@ -117,6 +136,8 @@ def render() -> str:
         "(* core/parsing/schema_parser.py: synthetic names of inline array items *)",
         f"Definition s_item_suffix : list N := {cstr(item_suffix.pop())}.",
         f"Definition s_AnonymousArray : list N := {cstr(anon.pop())}.",
+        "(* core/parsing/schema_parser.py 904-921: marking of a registered schema as circular *)",
+        f"Definition s_mark_Item : list N := {cstr(marks[0])}.",
         "",
     ]
     return "\n".join(lines)
